@@ -1039,11 +1039,158 @@ def generic_wide():
     return [w1, w2, w3, w4]
 
 
+# --------------------------------------------------------------------------
+# sub-check "override": custom variables that redefine catalogue names on
+# which requested built-ins depend, in any list order and any split; and
+# columns whose per-step values mix Python ints and floats
+
+
+def _o_rho0(rel):
+    return 1.0 + 0.1 * rel['alpha']
+
+
+def _o_press(rel):
+    return 0.2 * rel['gammadet']
+
+
+def _o_eps(rel):
+    return 0.05 * rel['alpha'] ** 2
+
+
+OVERRIDES = {"rho0": _o_rho0, "press": _o_press, "eps": _o_eps}
+DEPENDANTS = ["enthalpy", "rho", "conserved_D", "conserved_E"]
+
+
+def _est_count(a):
+    # an integer-valued estimate: Python int at some steps, float at others
+    v = float(np.max(a))
+    return int(round(v)) if abs(v - round(v)) < 0.25 else v
+
+
+@st.composite
+def override_case(draw):
+    base = draw(case_strategy(False))
+    over = draw(st.lists(st.sampled_from(sorted(OVERRIDES)), min_size=1,
+                         max_size=3, unique=True))
+    deps = draw(st.lists(st.sampled_from(DEPENDANTS), min_size=1, max_size=3,
+                         unique=True))
+    items = [("c", o) for o in over] + [("b", d) for d in deps]
+    perm = draw(st.permutations(list(range(len(items)))))
+    return dict(base=base, items=[list(items[i]) for i in perm],
+                cut=draw(st.integers(0, len(items))),
+                mixed_t=draw(st.booleans()))
+
+
+def test_override(case, note):
+    base = dict(case["base"], matter="Tdown4" if case["base"]["matter"]
+                == "fluid" else case["base"]["matter"])
+    fd, rows, cols, tk = build_table(base)
+    if case["mixed_t"] and any(k in ("t", "time") for k in tk):
+        # integer-valued times given as Python ints among floats
+        for r in rows:
+            for k in tk:
+                if k in ("t", "time"):
+                    v = round(float(r[k]) * 2) / 2 + 1.0
+                    r[k] = int(v) if float(v).is_integer() else v
+        tv = [r[[k for k in tk if k in ("t", "time")][0]] for r in rows]
+        if len(set(tv)) != len(tv):
+            return
+        for k in tk:
+            if k in ("it", "iteration"):
+                for r in rows:
+                    r[k] = int(round(r[[q for q in tk
+                                        if q in ("t", "time")][0]] * 64))
+        note.cls("mixed-int-float-times")
+    kw = dict(base["kw"])
+    items = [tuple(i) for i in case["items"]]
+
+    def vars_of(sub):
+        out = []
+        for kind, nm in sub:
+            out.append({nm: OVERRIDES[nm]} if kind == "c" else nm)
+        return out
+    ests = [{"count": _est_count}, "max"]
+    note.nt(len(rows) >= 2)
+    note.cls("override", f"cut={case['cut']}/{len(items)}")
+    t1 = make_table(rows, cols, "list")
+    one = call_over_time(t1, fd, vars_of(items), ests, kw, note, "one-call")
+    # reference semantics: customs first, then built-ins, one fresh core per
+    # step (what "a fresh calculation on that step's inputs" means when the
+    # request redefines an input of another requested variable)
+    order = sorted(range(len(rows)), key=lambda i: rows[i][tk[0]])
+    want = {nm: [] for _, nm in items}
+    for i in order:
+        rel = aurel.AurelCore(fd, verbose=False, **kw)
+        for k in cols:
+            if k not in tk:
+                rel.data[k] = np.array(rows[i][k], copy=True)
+        rel.freeze_data()
+        for kind, nm in items:
+            if kind == "c":
+                rel.data[nm] = OVERRIDES[nm](rel)
+                rel.var_importance[nm] = 0      # as a user-defined input
+        for kind, nm in items:
+            want[nm].append(np.array(rel[nm], copy=True))
+    if one is not None:
+        for kind, nm in items:
+            if nm not in one:
+                note.fail("override:missing-column", dict(name=nm))
+                continue
+            for j in range(len(rows)):
+                if not np.array_equal(np.asarray(one[nm][j]), want[nm][j]):
+                    note.fail("override:dependant-ignores-custom"
+                              if kind == "b" else "override:custom-value",
+                              dict(name=nm, step=j, order=[n for _, n in
+                                                           items]))
+                    break
+        # input columns preserved, including mixed int/float temporal values
+        for k in tk:
+            got = [float(v) for v in np.asarray(one[k]).tolist()]
+            exp = sorted(float(r[k]) for r in rows)
+            if got != exp:
+                note.fail("override:temporal-column-changed",
+                          dict(key=k, got=got, want=exp))
+        for nm in [n for _, n in items] + [c for c in cols if c not in tk]:
+            if nm in one and np.ndim(np.asarray(one[nm][0])) == 3:
+                key = nm + "_count"
+                if key not in one:
+                    note.fail("override:estimate-missing", dict(key=key))
+                    continue
+                got = [float(v) for v in np.asarray(one[key]).tolist()]
+                exp = [float(_est_count(np.asarray(one[nm][j])))
+                       for j in range(len(rows))]
+                if got != exp:
+                    note.fail("estimate:custom-mixed-int-float",
+                              dict(key=key, got=got[:4], want=exp[:4]))
+    # a split gives the same final table. Only splits in which every
+    # redefinition precedes the built-ins that depend on it are compared: a
+    # built-in computed in an earlier call cannot know a later redefinition
+    cust = [i for i in items if i[0] == "c"]
+    blt = [i for i in items if i[0] == "b"]
+    cut = min(case["cut"], len(blt))
+    t2 = make_table(rows, cols, "list")
+    first = call_over_time(t2, fd, vars_of(cust + blt[:cut]), [], kw, note,
+                           "split-1")
+    if first is not None and one is not None:
+        fin = call_over_time(first, fd, vars_of(blt[cut:]), ests, kw, note,
+                             "split-2")
+        if fin is not None:
+            for kind, nm in items:
+                if nm in fin and nm in one and not all(
+                        np.array_equal(np.asarray(a), np.asarray(b))
+                        for a, b in zip(fin[nm], one[nm])):
+                    note.fail("override:split-differs",
+                              dict(name=nm, cut=cut,
+                                   order=[n for _, n in items]))
+
+
 def subchecks(tier):
     q = tier == "quick"
     return [
         Sub("table", case_strategy(False), test_case, 400 if q else 5000,
             generic=generic_cases(), shards=8 if q else 16, max_rounds=3),
+        Sub("override", override_case(), test_override, 60 if q else 1500,
+            shards=8 if q else 16, max_rounds=3, shrink_quick=False),
         Sub("wide", case_strategy(True), test_case, 40 if q else 1200,
             generic=generic_wide(), shards=8 if q else 16, max_rounds=3,
             shrink_quick=False),
